@@ -73,6 +73,10 @@ cglue_impl_group!(SyR, ExtGrp, { IoRead });
 // a list written with a trailing comma enables every trait it names
 cglue_impl_group!(SyT, ExtGrp, { Debug, IoRead, });
 
+// a group WITHOUT mandatory traits and three optional ones
+cglue_trait_group!(OptOnly, { }, { Kb, Mb, Zb });
+cglue_impl_group!(Sx, OptOnly, { Kb, Mb, Zb });
+
 const W: usize = core::mem::size_of::<usize>();
 
 nd::harnesses! {
@@ -120,6 +124,22 @@ nd::harnesses! {
         if let Some(r) = as_ref!(c impl IoRead) {
             assert!(r.io_read() == v ^ 0x2000);
         }
+    }
+
+    /// A group without mandatory traits: a registration that enables several optional traits enables ALL of them.
+    #[kani::unwind(10)]
+    fn c08x_group_without_mandatory_traits() {
+        let v: u64 = nd::any();
+        let direct = Sx { val: v };
+        let grp = group_obj!(Sx { val: v } as OptOnly);
+        assert!(size_of_val(&grp) == 5 * W);
+        let w: [usize; 5] = unsafe { transmute_copy(&grp) };
+        assert!(w[0] != 0 && w[1] != 0 && w[2] != 0, "every enabled optional vtable is present");
+        let r = as_ref!(grp impl Kb + Mb + Zb).unwrap();
+        assert!(r.kb() == direct.kb() && r.mb() == direct.mb() && r.zb() == direct.zb());
+        assert!(as_ref!(grp impl Kb).is_some() && as_ref!(grp impl Mb).is_some() && as_ref!(grp impl Zb).is_some());
+        let c = into!(grp impl Kb + Zb).unwrap();
+        assert!(c.kb() == direct.kb() && c.zb() == direct.zb());
     }
 
     /// Every cast operation, every requested subset: each method reaches its own trait's implementation.
